@@ -345,7 +345,13 @@ theorem mergeSlices_reuse (less : α → α → Bool)
     simp only [Bool.not_false, true_iff]
     omega
   · rw [if_neg h]
-    simp only [Bool.not_true, Bool.false_eq_true, false_iff]
-    omega
+    have hne : ((ins.map List.length).sum : Int) ≤ outCap ↔ False := by
+      constructor
+      · intro hle; exact h (by omega)
+      · exact False.elim
+    simp only [Int.zero_add, gt_iff_lt]
+    by_cases hal : Model.Stdlib.allocLimit < ((ins.map List.length).sum : Int)
+    · simp [hal, hne]
+    · simp [hal, hne]
 
 end Juniper.Proofs.Helpers
